@@ -202,6 +202,8 @@ class Walker:
             m = re.match(r"(_\d+) = discriminant\((_\d+)\);", line)
             if m:
                 v = env.get(m.group(2), ("opaque",))
+                if v[0] == "result":  # `match` / `if let` directly on a call's Result: 0 = Ok, 1 = Err
+                    v = ("tried", v[1])
                 env[m.group(1)] = ("discr", v[1]) if v[0] == "tried" else ("opaque",)
                 continue
             m = re.match(r"(_\d+) = Not\((?:move|copy) (_\d+)\);", line)
@@ -298,6 +300,8 @@ def run(o, tier, seed, log_path, group=None):
         h = nonempty(p)
         if h is not None:
             p["cond"] = p["cond"] + [f"(= {h} dir_nonempty)"]
+        elif envvar(p, "no_entry") is not None:  # written as `.next().is_none()`
+            p["cond"] = p["cond"] + [f"(= (not {envvar(p, 'no_entry')}) dir_nonempty)"]
     w.decls.append("(declare-const dir_nonempty Bool)")
     _ne = nonempty
 
